@@ -174,6 +174,9 @@ let monitors : (string * (config -> n list -> n list option -> bool)) list = [
   ("C15udp", ok_C15_udp);
   ("C15udp_strict", ok_C15_udp_strict);
   ("C17udp", ok_C17_udp);
+  ("C15later", ok_C15_tcp_later);             (* later segments of a flow bound to a responder: applied by the harness *)
+  ("C18later_ssh", ok_C18_tcp_later_ssh);     (* only to the frames it knows to be such (Spec/Later.v) *)
+  ("C18later_ghost", ok_C18_tcp_later_ghost);
   ("C16udp_ref", ok_C16_udp_ref);            (* universal addresses judged by independent readers, not by the printer *)
   ("C16udp_ref_strict", ok_C16_udp_ref_strict);
   ("C14udp_ref", ok_C14_udp_ref);            (* 'no signature completed' read on the published list *)
